@@ -243,6 +243,12 @@ def install(it):
         return (it.binop(ast.FloorDiv, a[0], a[1]),
                 it.binop(ast.Mod, a[0], a[1]))
 
+    @builtin('format')
+    def _format(it, a, kw):
+        if not any(is_symbolic(x) for x in a):
+            return it.host_call(format, *a)
+        return OpaqueStr('format', tuple(a))
+
     @builtin('pow')
     def _pow(it, a, kw):
         if len(a) == 2:
